@@ -122,12 +122,13 @@ Definition acb_accepts (t : btx) : bool :=
      end.
 
 (* what makes the amounts of a row meaningful: a traded quantity is not
-   zero, a price is not negative, a USD dividend and the legs of a
-   conversion are not zero *)
+   zero, a price is not negative, a trade is in CAD or USD, a USD dividend
+   and the legs of a conversion are not zero *)
 Definition row_sane (q : qrow) : bool :=
   let a := action_of q in
   if is_trade_action a then
     negb (Qceqb (dec_or0 Col.qty (q_qty q)) 0) && Qcleb 0 (dec_or0 Col.price (q_price q))
+    && (text_eqb (row_currency q) t_CAD || text_eqb (row_currency q) t_USD)
   else if text_eqb a t_FXT then negb (Qceqb (dec_or0 Col.net (q_net q)) 0)
   else if text_eqb a t_DIV then
     negb (text_eqb (row_currency q) t_USD) || negb (Qceqb (dec_or0 Col.net (q_net q)) 0)
